@@ -394,6 +394,14 @@ class Session:
     def lazy_arg(self, op, objs, fault, where):
         """The three flavours of a lazily evaluated argument: a generator, or an object that
         also has __len__ (sized but lazy), both carrying the fault directive."""
+        if op.get("sized") == "reiterable":
+            sess = self
+
+            class Reiterable:  # neither an iterator nor sized: every iter() starts a new lazy pass
+                def __iter__(self_):
+                    return sess.lazy(objs, fault, where)
+
+            return Reiterable()
         if op.get("sized"):
             sess = self
 
@@ -478,6 +486,14 @@ class Session:
             try:
                 if k in MUTATORS:
                     outcome = self.mutate(op, i)
+                elif k == "init_elem":
+                    try:
+                        from sym_metanet.engines.numpy import Engine as _NE
+
+                        self.U.obj(op["el"]).init_vars(engine=_NE("rand"))
+                        outcome = "ok"
+                    except Exception as e:
+                        outcome = type(e).__name__
                 elif k == "read":
                     for w in op["what"]:
                         if self.prop == "C08":
@@ -833,8 +849,8 @@ def attach_fault(rng: random.Random, op: dict, prop: str, enabled: set):
     """Draws a directive for a bulk call (stored in the op: replay needs no PRNG)."""
     if not op.get("lazy", True):
         return
-    if rng.random() < 0.2:
-        op["sized"] = True  # an argument that has __len__ but is still evaluated lazily
+    if rng.random() < 0.3:
+        op["sized"] = rng.choice([True, "reiterable"])  # has __len__ / is merely re-iterable, but still lazy
     n = {"add_nodes": lambda: len(op["ns"]), "add_links": lambda: len(op["items"]), "add_path": lambda: len(op["path"])}[
         op["op"]
     ]()
@@ -918,6 +934,15 @@ def gen_chaos_op(rng: random.Random, U: dict, model: RefNet) -> dict:
     anynode = lambda: f"n{rng.randrange(nn)}"  # noqa: E731
     pn = lambda: rng.choice(present)  # noqa: E731
     used_links = list(model.edges.values())
+    if rng.random() < 0.06 and nl >= 3:
+        # one bulk call in which the same link object occurs more than once
+        a, b, c = (rng.choice([pn(), anynode()]) for _ in range(3))
+        l1, l2, l3 = (f"l{i}" for i in rng.sample(range(nl), 3))
+        items = rng.choice([[[a, l1, b], [b, l3, c], [a, l2, b], [a, l1, b]], [[a, l1, b], [a, l1, c]], [[a, l1, b], [a, l2, b], [c, l1, a]]])
+        return {"op": "add_links", "items": items, "lazy": rng.random() < 0.5}
+    if rng.random() < 0.05:
+        # not a construction call: an element gets its variables initialised (public per-element API)
+        return {"op": "init_elem", "el": rng.choice([f"l{rng.randrange(nl)}", f"o{rng.randrange(no)}", f"d{rng.randrange(nd)}"])}
     kind = rng.choice(
         ["stray", "dup_link", "replace_link", "selfloop", "edge_any", "origin_any", "dest_any",
          "dup_origin", "dup_dest", "od_same_node", "edge_from_dest", "edge_into_dest", "edge_from_origin",
